@@ -248,8 +248,10 @@ class Exemptions:
         return False
 
     # -- the table ------------------------------------------------------
-    def suppress(self, site, exc):
+    def suppress(self, site, exc, origin=None):
         r = self._suppress(site, exc)
+        if not r and origin is not None and site.kind == "call":
+            r = self._suppress_call(site, exc, origin)
         if r:
             self.used.setdefault(r, set()).add(site.ident())
         return r
@@ -432,6 +434,23 @@ class Exemptions:
                         return False
                     found = True
         return found
+
+    def _suppress_call(self, site, exc, origin):
+        """context-sensitive: apply_settings' TypeError cannot be raised by an internal call that passes
+        a Settings instance (or no settings at all)"""
+        if exc == "TypeError" and origin[0] in ("dateparser.conf:apply_settings.<locals>.wrapper",
+                                                  "dateparser.conf:Settings.replace"):
+            n = site.node
+            if isinstance(n, ast.Call) and any(c.key == "dateparser.conf:apply_settings.<locals>.wrapper" for c in site.callees):
+                kw = [k.value for k in n.keywords if k.arg == "settings"]
+                if not kw:
+                    if site.fn.key.startswith("dateparser.search"):
+                        return None if False else "internal call without settings=: the default Settings instance is used"
+                    return "internal call without settings=: the default Settings instance is used"
+                ts = self.ctx.ti.type_of(kw[0], site.fn)
+                if ts and all(t == "C:dateparser.conf:Settings" for t in ts):
+                    return "internal call passes a Settings instance: apply_settings' type check cannot fail"
+        return None
 
     def _load_data_validates_first(self):
         f = self.ix.funcs.get("dateparser.languages.loader:LocaleDataLoader._load_data")
